@@ -198,8 +198,8 @@ TABLE = {
         Cell('complex-left-s-rational-a', rat_args(lambda r, b: C(raw_rand(r, b, -2, 5, 1), raw_rand(r, b, -3, 4)), 3), fn=_hurw_q, cost=2, pgen=True),
         Cell('neg-s-real-a-EM', args(real_in(-2, 5, 1), real_in(-3, 4, 0)), fn=_hurw, cost=2),
         Cell('nonpos-int-s-bernpoly', args(integer(-40, 0), real_in(-3, 5)), fn=_hurw),
-        Cell('pos-int-s-real-a<=2', args(integer(2, 40), lambda r, b: R(fl(r.uniform(0.05, 2), max(8, min(b, 53))))), fn=_hurw, cost=2),
-        Cell('tiny-value-pos-int-s-real-a', args(integer(8, 40), real_in(2, 8, 0)), fn=_hurw, cost=2, oracle=_hurw_raised),
+        Cell('pos-int-s-real-a<=1', args(integer(2, 40), lambda r, b: R(fl(r.uniform(0.05, 1), max(8, min(b, 53))))), fn=_hurw, cost=2),
+        Cell('tiny-value-pos-int-s-real-a', args(integer(8, 40), real_in(1, 8, 0)), fn=_hurw, cost=2, oracle=_hurw_raised),
         Cell('negative-a-real-s>1', args(lambda r, b: R(fl(r.uniform(1.1, 12), 30)), real_in(-2, 5, 1)), fn=_hurw, cost=2),
         Cell('negative-a-int-s>1', args(integer(2, 12), real_in(-2, 5, 1)), fn=_hurw, cost=2),
         Cell('negative-rational-a', rat_args(lambda r, b: R(fl(r.uniform(1.1, 12), 30)), neg=True), fn=_hurw_q, cost=2, pgen=True),
